@@ -368,12 +368,34 @@ def name_lookup(ctx, work):
         bad, err = gxx_bad_lines(work, "nl%03d_orig.cxx" % bi)
         if bad:
             return ("sanity", err[:1500], None)
-        r = run.run_tool("parse_file", [hdr], cwd=work, timeout=300)
-        if r.rc != 0 or r.timed_out:
-            return ("reject", r.stderr[-600:], batch)
+        # acceptance, with batch isolation: a rejected program must not hide the others
+        outs, rejected = [], []
+        cnt = [0]
+
+        def accept(group):
+            cnt[0] += 1
+            fn = "nl%03d_g%04d.h" % (bi, cnt[0])
+            src2 = []
+            for n, rec in group:
+                src2 += render_lookup(n, rec)
+            open(os.path.join(work, fn), "w").write("\n".join(src2) + "\n")
+            rr = run.run_tool("parse_file", [fn], cwd=work, timeout=600)
+            ok = rr.rc == 0 and not rr.timed_out
+            if ok:
+                outs.append(rr.stdout)
+            elif len(group) == 1:
+                rejected.append((group[0][0], "rc=%s signal=%s timeout=%s %s" % (rr.rc, rr.signal, rr.timed_out, rr.stderr.strip()[-300:])))
+            return ok
+        run.isolate(batch, accept, max_singletons=50)
+
+        class _R:
+            pass
+        r = _R()
+        r.stdout = "\n".join(outs)
+        rej_ids = set(n for n, _ in rejected)
+        batch = [(n, rec) for n, rec in batch if n not in rej_ids]
         # parse_file's dump of reopened namespaces is not itself compilable; what is compared is the
-        # (fully scoped) type name it prints in each `use` declaration, evaluated by g++ at global
-        # scope next to the original text
+        # (fully scoped) type name printed in each `use` declaration, evaluated by g++ at global scope
         cur, names = None, {}
         for line in r.stdout.split("\n"):
             m = re.match(r"namespace c(\d+) \{", line)
@@ -399,7 +421,7 @@ def name_lookup(ctx, work):
                 bad_cases[owner[l]] = sorted(names[owner[l]])
             else:
                 return ("sanity", "printed-name TU fails outside any case:\n" + err[:1500], None)
-        return ("ok", bad_cases, batch)
+        return ("ok", bad_cases, batch, rejected, dict(arg[1]))
 
     total = 0
     for res in run.pmap(one, list(enumerate(batches))):
@@ -410,8 +432,15 @@ def name_lookup(ctx, work):
             ctx.violation("parse_file rejects a batch of valid namespace programs: %s" % res[1][-300:], dict(stat_key="lookup-reject"))
             continue
         batch = res[2]
-        total += len(batch)
-        byn = dict(batch)
+        total += len(batch) + len(res[3])
+        byn = res[4]
+        for n, info in res[3]:
+            rec = byn[n]
+            ctx.violation("valid namespace program rejected by parse_file (%s): %s" % (info, " ".join(render_lookup(n, rec)[2:])),
+                          dict(program=render_lookup(n, rec), info=info,
+                               stat_key="lookup-reject %s %s" % (rec["sp"], sorted(set(i["k"] for i in rec["items"])))),
+                          classes=(["C06-using-declaration-ignored"] if rec["ud"] else []) +
+                                  (["C06-using-directive-placement"] if rec["up"] else []))
         for n, printed in sorted(res[1].items()):
             rec = byn[n]
             ctx.violation("printed name denotes another entity: %s  is printed as %s (spec = g++: entity %d)" % (
